@@ -182,11 +182,12 @@ func c15dom(c *core.Ctx) {
 // stmtLoopOf finds a range loop over field Statements of the named type.
 func stmtLoopOf(fn *ssa.Function, typ string) (header, body, done *ssa.BasicBlock) {
 	for _, b := range fn.Blocks {
-		if b.Comment != "rangeindex.loop" {
+		if !isLoopHeader(b) {
 			continue
 		}
 		ok := false
-		for _, p := range b.Preds {
+		// len is computed in the preheader (range loop) or in the header itself (index loop)
+		for _, p := range append([]*ssa.BasicBlock{b}, b.Preds...) {
 			for _, in := range p.Instrs {
 				if call, isCall := in.(*ssa.Call); isCall {
 					if bi, isB := call.Common().Value.(*ssa.Builtin); isB && bi.Name() == "len" && an.MentionsField(call.Common().Args[0], typ, "Statements") {
